@@ -9,7 +9,9 @@
   constructed `Source` (a `Source` value in the model *is* its four fields, so two
   constructions with equal fields are the same value — this is the repaired equality, F12).
   `run cfg ops` is the model state after `ops`; the history functions `incSum`, `lastSet`,
-  `srcs` read a history newest-first, hence `ops.reverse`.
+  `srcs`, `sampleCount`, `lastRetain` read a history newest-first, hence `ops.reverse`.
+  Time (LOW_RESOLUTION_TIME_SOURCE.now, whole seconds) is a parameter of every sample and
+  aggregate operation; no monotonicity is assumed.
 -/
 import ScalesModel.Proofs.VarzLemmas
 import Mathlib.Data.List.Perm.Subperm
@@ -67,7 +69,7 @@ theorem C18_series_le_distinct_sources (cfg : Cfg) (ops : List Op) (m : Nat)
   apply List.Subperm.length_le
   apply List.Nodup.subperm (nodup_firstOcc _)
   intro s hs
-  exact hds s ((mem_firstOcc _ _).mp hs)
+  exact hds s (List.mem_reverse.mp ((mem_firstOcc _ _).mp hs))
 
 /-- Percentiles lie between the smallest and the largest retained sample: for every sample
     list, every percentile p/q in [0,1], every lower bound `lo` and upper bound `hi` of the
@@ -103,19 +105,19 @@ theorem C18_percentile_monotone (xs : List Int) (hne : xs ≠ []) (p1 q1 p2 q2 :
   exact pctNum_mono _ (isort_sorted xs) hne' p1 q1 p2 q2 hq1 hp1 hq2 hp2 h
 
 /-- The reservoir retains at most `cap` samples, and each retained sample was recorded. -/
-theorem C18_reservoir_bounded (cap : Nat) (keep : Bool) (v : Int) (data : List Int) (seen : Nat)
-    (hb : data.length ≤ cap) (hs : data.length ≤ seen) :
-    ∃ d n, sampleInto cap keep v data seen = .res d n ∧ d.length ≤ cap ∧ d.length ≤ n ∧
+theorem C18_reservoir_bounded (cap : Nat) (keep : Bool) (v : Int) (now : Nat) (data : List Int)
+    (seen last : Nat) (hb : data.length ≤ cap) (hs : data.length ≤ seen) :
+    ∃ d n l, sampleInto cap keep v now data seen last = .res d n l ∧ d.length ≤ cap ∧ d.length ≤ n ∧
       ∀ x ∈ d, x = v ∨ x ∈ data := by
   unfold sampleInto
   split
-  · refine ⟨_, _, rfl, ?_, ?_, ?_⟩
+  · refine ⟨_, _, _, rfl, ?_, ?_, ?_⟩
     · simp; omega
     · simp; omega
     · intro x hx; simp at hx; tauto
   · split
     · have hd : (data ++ [v]).length = data.length + 1 := by simp
-      refine ⟨_, _, rfl, ?_, ?_, ?_⟩
+      refine ⟨_, _, _, rfl, ?_, ?_, ?_⟩
       · split
         · rw [List.length_drop]; omega
         · omega
@@ -126,7 +128,34 @@ theorem C18_reservoir_bounded (cap : Nat) (keep : Bool) (v : Int) (data : List I
         split at hx
         · have := List.mem_of_mem_drop hx; simp at this; tauto
         · simp at hx; tauto
-    · exact ⟨_, _, rfl, hb, by omega, fun x hx => Or.inr hx⟩
+    · exact ⟨_, _, _, rfl, hb, by omega, fun x hx => Or.inr hx⟩
+
+/-- A reservoir's `last_update` is the time at which it last retained a sample (one of the
+    first `cap` samples, or a later one the draw kept), and `seen` counts every sample — for
+    every history, in particular after the reservoir is full. -/
+theorem C18_last_update_is_last_retained (cfg : Cfg) (ops : List Op) (m : Nat) (s : Source) (t : VType)
+    (ht : typeOf cfg m = some t) (hp : t.isPct = true) (d : List Int) (n l : Nat)
+    (hl : lookup (m, s) (run cfg ops) = some (.res d n l)) :
+    n = sampleCount m s ops.reverse ∧ ∀ tr, lastRetain cfg.cap m s ops.reverse = some tr → l = tr := by
+  have := lookup_replay_pct cfg m s t ht hp ops.reverse
+  unfold run at hl
+  rw [hl] at this
+  exact this
+
+/-- A single source that retained a sample within the last MAX_AGG_AGE seconds is never
+    dropped: Aggregate at time `now` counts exactly its reservoir and reports the percentiles
+    of its retained samples (which therefore lie within their minimum and maximum and are
+    monotone, by the two theorems above). -/
+theorem C18_recent_source_reported (cfg : Cfg) (ops : List Op) (hw : comp.wf cfg ops = true) (m : Nat)
+    (t : VType) (ht : typeOf cfg m = some t) (hp : t.isPct = true) (K : Key) (s : Source) (now : Nat)
+    (hone : (distinctSrcs m ops.reverse).filter (fun s => s.key = K) = [s])
+    (hrec : retainedRecently cfg.cap m s now ops.reverse = true) :
+    pctCount now K (seriesOf m (run cfg ops)) = 1 ∧
+    aggPcts cfg.pcts now K (seriesOf m (run cfg ops)) =
+      cfg.pcts.map (fun pq => pctNum (isort (mergedData K (seriesOf m (run cfg ops)))) pq.1 pq.2) := by
+  simp only [comp, Bool.and_eq_true] at hw
+  have := pct_entry cfg hw.1 m t ht hp ops.reverse (by simpa [opsOk] using hw.2) K s now hone hrec
+  exact ⟨this.1, this.2.2⟩
 
 /-- **C18, specification level.**  For every configuration whose percentiles are fractions
     in [0,1] and every operation list that uses each metric through the entry point of its
@@ -141,12 +170,17 @@ theorem C18_model_satisfies_spec (cfg : Cfg) (ops : List Op) (hw : comp.wf cfg o
 example : typeOf ⟨[(0, .counter), (1, .gauge)], 3, [(1, 2)]⟩ 0 = some .counter := by decide
 example : comp.wf ⟨[(0, .counter), (1, .avgTimer)], 3, [(1, 2), (9, 10)]⟩
     [.inc 0 ⟨some 1, some 2, none, none⟩ 5, .inc 0 ⟨some 1, some 2, none, none⟩ 7,
-     .sample 1 ⟨none, some 2, none, none⟩ 4 true, .agg [0, 1]] = true := by decide
+     .sample 1 ⟨none, some 2, none, none⟩ 4 true 10, .agg [0, 1] 20] = true := by decide
 example : nSeries 0 (run ⟨[(0, .counter)], 3, []⟩
     [.inc 0 ⟨some 1, some 2, none, none⟩ 5, .inc 0 ⟨some 1, some 2, none, none⟩ 7]) = 1 := by decide
 example : aggTotal (some 2, none) (seriesOf 0 (run ⟨[(0, .counter)], 3, []⟩
     [.inc 0 ⟨some 1, some 2, none, none⟩ 5, .inc 0 ⟨some 4, some 2, some 0, none⟩ 7])) = 12 := by decide
 -- samples 5 1 9, p = 9/10: k = 1.8, value = 5·0.2 + 9·0.8 = 8.2 = 82/10
 example : pctNum (isort [5, 1, 9]) 9 10 = 82 := by decide
+-- cap 2: three samples at t = 0, one kept at t = 301; aggregated at t = 400 the source is recent
+example : retainedRecently 2 0 ⟨none, some 2, none, none⟩ 400
+    [.sample 0 ⟨none, some 2, none, none⟩ 9 true 301, .sample 0 ⟨none, some 2, none, none⟩ 7 false 0,
+     .sample 0 ⟨none, some 2, none, none⟩ 6 false 0, .sample 0 ⟨none, some 2, none, none⟩ 5 false 0] = true := by
+  decide
 
 end Scales.Varz
